@@ -202,7 +202,21 @@ class Ctx:
             self.tq += time.time() - t1
             return r3
 
-        if big:
+        # pure non-linear real arithmetic: the nlsat tactic alone is far stronger than the default combination
+        pur = _purify_for_nlsat(list(self.pc) + [np_])
+        if pur is not None:
+            self.nq += 1
+            t1 = time.time()
+            ns = _nlsat_solver()
+            ns.set("timeout", min(10000, self.timeout_ms))
+            rn = _guarded_check(ns, pur[0], min(10000, self.timeout_ms))
+            self.tq += time.time() - t1
+            if rn == z3.unsat:
+                r, relaxed = z3.unsat, True
+            elif rn == z3.sat and not pur[1]:
+                r = z3.sat
+                self._alt_model = ns.model()
+        if r == z3.unknown and big:
             self.set_timeout(min(15000, self.timeout_ms))
             if _abstraction() == z3.unsat:
                 r, relaxed = z3.unsat, True
@@ -229,7 +243,8 @@ class Ctx:
         rec = {"name": name, "result": str(r), "reach": str(reach), "path": len(self.results), "info": info,
                "secs": round(time.time() - t0, 2), "relaxed": relaxed}
         if r == z3.sat:
-            rec["model"] = self.model_values()
+            rec["model"] = self.model_values(getattr(self, "_alt_model", None))
+            self._alt_model = None
             rec["replay"] = replay
             rec["_neg"] = z3.Not(p)
         self.results.append(rec)
@@ -286,6 +301,71 @@ def _has_toint(f, _cache={}):
         todo.extend(t.children())
     _cache[k] = found
     return found
+
+
+_NLSAT = []
+
+
+def _nlsat_solver():
+    if not _NLSAT:
+        _NLSAT.append(z3.Tactic("qfnra-nlsat").solver())
+    return _NLSAT[0]
+
+
+def _purify_for_nlsat(formulas):
+    """formulas with every uninterpreted application replaced by a fresh real (sound for `unsat`), or None when an
+    integer-sorted or otherwise unsupported term occurs.  Returns (formulas, purified_anything)."""
+    cache, names = {}, {}
+    ok = [True]
+
+    def walk(t):
+        k = t.get_id()
+        if k in cache:
+            return cache[k]
+        if z3.is_rational_value(t) or z3.is_true(t) or z3.is_false(t):
+            cache[k] = t
+            return t
+        if t.sort().kind() == z3.Z3_INT_SORT:
+            ok[0] = False
+            return t
+        if not z3.is_app(t):
+            ok[0] = False
+            return t
+        d = t.decl()
+        kind = d.kind()
+        if kind == z3.Z3_OP_UNINTERPRETED:
+            if t.num_args() == 0:
+                cache[k] = t
+                return t
+            key = t.sexpr()
+            if key not in names:
+                names[key] = z3.Real(f"uf!{len(names)}")
+            cache[k] = names[key]
+            return names[key]
+        if kind == z3.Z3_OP_TO_REAL and z3.is_int_value(t.children()[0]):
+            r = z3.RealVal(t.children()[0].as_long())
+            cache[k] = r
+            return r
+        if kind in (z3.Z3_OP_TO_INT, z3.Z3_OP_IS_INT, z3.Z3_OP_IDIV, z3.Z3_OP_MOD, z3.Z3_OP_TO_REAL):
+            ok[0] = False
+            return t
+        new = [walk(c) for c in t.children()]
+        if not ok[0]:
+            return t
+        try:
+            r = d(*new) if any(not a.eq(b) for a, b in zip(new, t.children())) else t
+        except z3.Z3Exception:
+            ok[0] = False
+            return t
+        cache[k] = r
+        return r
+
+    out = []
+    for f in formulas:
+        out.append(walk(f))
+        if not ok[0]:
+            return None
+    return out, bool(names)
 
 
 def _abstract_squares(formulas):
@@ -409,6 +489,22 @@ def _zb(x):
 
 def _real(e):
     return z3.ToReal(e) if e.is_int() else e
+
+
+def _div(a, b):
+    """a / b.  With ctx.div_as_mul set, a quotient by a non-constant term is a fresh q with b != 0 -> q*b == a
+    (no division terms reach nlsat, which handles the multiplicative form much better)."""
+    c = Ctx.cur
+    if c is not None and getattr(c, "div_as_mul", False) and not z3.is_rational_value(z3.simplify(b)):
+        cache = c.__dict__.setdefault("_div_cache", {})
+        k = (a.get_id(), b.get_id())
+        if k not in cache:
+            q = c.new_real("quot")
+            c.pc.append(z3.Implies(b != 0, q * b == a))
+            c.defs[str(q)] = ("expr", a / b)
+            cache[k] = q
+        return cache[k]
+    return a / b
 
 
 def _pyfloordiv(a, b):
@@ -538,10 +634,10 @@ class SNum:
     __rmul__ = __mul__
 
     def __truediv__(self, o):
-        return self._bin(o, lambda a, b: _real(a) / _real(b))
+        return self._bin(o, lambda a, b: _div(_real(a), _real(b)))
 
     def __rtruediv__(self, o):
-        return self._bin(o, lambda a, b: _real(b) / _real(a))
+        return self._bin(o, lambda a, b: _div(_real(b), _real(a)))
 
     def __floordiv__(self, o):
         def f(a, b):
